@@ -118,6 +118,26 @@ Proof. exact text_datetime. Qed.
 Theorem C04_text_time : forall rt, RuntimeLaws rt -> forall c t, valid_tm t = true ->
   exists t', unm_time rt (text rt c (canon_text rt (VTime t))) = Ok (VTime t') /\ same_tm t t' = true.
 Proof. exact text_time. Qed.
+(* bool(text): "the text is not empty", in all five carriers -- bool('false') is True *)
+Theorem C04_text_bool : forall rt, RuntimeLaws rt -> forall c s,
+  unm_number rt KBool (text rt c s) = Ok (VBool (negb (is_empty s))).
+Proof. exact text_bool. Qed.
+(* subclass instances are handed back as they are: True where int is asked, members of int / str mixin enums where
+   int / str is asked; a loaded True is the int 1 to UUIDUnmarshaller; a member of ANOTHER enum class is looked up *)
+Theorem C04_subclass_instances : forall rt,
+  (forall b, unm_number rt KInt (VBool b) = Ok (VBool b)) /\
+  (forall m z, enum_base rt m = Some (VInt z) -> unm_number rt KInt (VEnum m) = Ok (VEnum m)) /\
+  (forall m s, enum_base rt m = Some (VText CStr s) -> unm_str rt (VEnum m) = Ok (VEnum m)) /\
+  (forall v b, load rt v = Ok (VBool b) -> unm_uuid rt v = uuid_of_int rt (b2z b) >>= fun u => Ok (VUuid u)).
+Proof. intros rt. exact (conj (bool_is_int rt) (conj (int_member_is_int rt) (conj (str_member_is_str rt) (uuid_of_loaded_bool rt)))). Qed.
+Example C04_subclass_on_toy :
+  unm_number toy_rt KBool (text toy_rt CBytearray "false"%string) = Ok (VBool true) /\
+  unm_number toy_rt KBool (VText CStr ""%string) = Ok (VBool false) /\
+  unm_number toy_rt KInt (VEnum "IE.one"%string) = Ok (VEnum "IE.one"%string) /\ unm_str toy_rt (VEnum "SM.a"%string) = Ok (VEnum "SM.a"%string) /\
+  unm_str toy_rt (VEnum "E.plain"%string) = Ok (VText CStr "E.plain"%string) /\
+  unm_number toy_rt KDec (VBool true) = Ok (VDec "1"%string) /\ unm_number toy_rt KFloat (VEnum "IE.one"%string) = Ok (VFloat "1"%string).
+Proof. vm_compute. repeat split. Qed.
+
 Example C04_ranges_satisfiable :
   valid_date 2024 2 29 = true /\ valid_date 1 1 1 = true /\ valid_date 9999 12 31 = true /\
   valid_dt {| dy := 2020; dmo := 1; dd := 1; dh := 17; dmi := 0; ds := 0; dus := 999999; doff := Some 19800; dfold := 1 |} = true /\
@@ -127,7 +147,7 @@ Proof. vm_compute. repeat split. Qed.
 
 (* ------------------------------------------------------------------ numeric readings: typelib's plumbing *)
 (* numbers to temporal types: epoch seconds read in UTC; seconds of duration for timedelta *)
-Theorem C04_num_to_temporal : forall rt x, is_number x = true ->
+Theorem C04_num_to_temporal : forall rt x, is_number rt x = true ->
   unm_datetime rt x = (fromtimestamp_utc rt x >>= fun d => Ok (VDateTime d)) /\
   unm_date rt x = (fromtimestamp_utc rt x >>= fun d => Ok (VDate (dy d) (dmo d) (dd d))) /\
   unm_time rt x = (fromtimestamp_utc rt x >>= fun d => Ok (VTime (time_of d))) /\
@@ -145,7 +165,9 @@ Theorem C04_temporal_to_text : forall rt v, is_temporal v = true ->
   unm_bytes rt v = Ok (VText CBytes (utf8_encode rt (isoformat rt v))).
 Proof. intros rt v H. exact (conj (temporal_to_str rt v H) (temporal_to_bytes rt v H)). Qed.
 Example C04_numeric_hyps_satisfiable :
-  is_number (VInt 1700000000) = true /\ is_number (VFloat "0x1.8p+0"%string) = true /\
+  is_number toy_rt (VInt 1700000000) = true /\ is_number toy_rt (VFloat "0x1.8p+0"%string) = true /\
+  is_number toy_rt (VBool true) = true /\ is_number toy_rt (VEnum "IE.one"%string) = true /\
+  is_number toy_rt (VEnum "SM.a"%string) = false /\
   is_instant (VDate 1970 1 1) = true /\ is_temporal (VTimeDelta 0 1 500000) = true.
 Proof. vm_compute. repeat split. Qed.
 
@@ -169,6 +191,9 @@ Print Assumptions C04_text_enum.
 Print Assumptions C04_text_date.
 Print Assumptions C04_text_datetime.
 Print Assumptions C04_text_time.
+Print Assumptions C04_text_bool.
+Print Assumptions C04_subclass_instances.
+Print Assumptions C04_subclass_on_toy.
 Print Assumptions C04_num_to_temporal.
 Print Assumptions C04_temporal_to_num.
 Print Assumptions C04_temporal_to_text.
